@@ -6,6 +6,7 @@ import (
 	"io/ioutil"
 	"log"
 	"math/rand"
+	"sort"
 	"strings"
 
 	"gopkg.in/src-d/go-git.v4"
@@ -57,6 +58,20 @@ func main() {
 			ids = append(ids, fmt.Sprint(r[identity.DependencyAuthor].(int)))
 		}
 		fmt.Fprintf(wo, "gen %s\n", strings.Join(enc, " "))
-		fmt.Fprintf(wi, "%d [%s]\n", len(d.ReversedPeopleDict), strings.Join(ids, ", "))
+		// descriptions: the tokens listed for each developer (names and e-mails), as a sorted multiset
+		var ds []string
+		for _, desc := range d.ReversedPeopleDict {
+			var toks []int
+			for _, part := range strings.Split(desc, "|") {
+				toks = append(toks, tokOf(part))
+			}
+			sort.Ints(toks)
+			var ts []string
+			for _, t := range toks {
+				ts = append(ts, fmt.Sprint(t))
+			}
+			ds = append(ds, strings.Join(ts, ","))
+		}
+		fmt.Fprintf(wi, "%d [%s] %s\n", len(d.ReversedPeopleDict), strings.Join(ids, ", "), strings.Join(ds, ";"))
 	}
 }
